@@ -17,9 +17,9 @@ def main(run):
     bounds = [('A', 3, 2, 2), ('B2', 3, 2, 2), ('B1', 3, 2, 2)] if quick else [('A', 4, 2, 2), ('B1', 4, 2, 2), ('B2', 4, 2, 2)]
     rng = random.Random(run.seed)
     trees, _ = F.model_phase(run, bounds, ['InvC11'])
-    trees = F.cap(trees, 1500 if quick else 40000, rng, run)
-    trees += F.random_trees(run.seed + 31, 700 if quick else 10000, max_nodes=16)
-    items = [{'t': t, 'cfgs': F.rotate_cfgs(i, rng, 1 if quick else 3)} for i, t in enumerate(trees)]
+    trees = F.cap(trees, 1500 if quick else 8000, rng, run)
+    trees += F.random_trees(run.seed + 31, 700 if quick else 3000, max_nodes=16)
+    items = [{'t': t, 'cfgs': F.rotate_cfgs(i, rng, 1 if quick else 2)} for i, t in enumerate(trees)]
     for t in trees:
         if any(s['k'] in ('custom', 'dict', 'ddict') for s in F.subtrees(t)):
             run.nontrivial.add(F.tree_key(t))
@@ -30,27 +30,37 @@ def main(run):
     p = run.drive('harness.drivers.d_pickle', ['dump', inp, blobs, ca])
     if p.returncode != 0:
         return
-    cases = [json.loads(l) for l in open(ca)]
     worlds = ['same', 'missing-a2', 'missing-global1', 'only-b3', 'rereg', 'a3-missing-b3-present']
     procs = []
     for w in worlds:
         out = os.path.join(wd, f'casesB-{w}.ndjson')
         procs.append((w, out, subprocess.Popen(['/venv/bin/python', '-m', 'harness.drivers.d_pickle', 'load', w, blobs, out],
                                                cwd=run.pyenv()['PYTHONPATH'].split(os.pathsep)[1], env=run.pyenv(), stderr=subprocess.PIPE, text=True)))
+    batches = [('same-process', ca)]
     for w, out, pr in procs:
         err = pr.communicate()[1]
         if pr.returncode != 0:
-            run.machinery(f'loading process {w} failed: {err[-1500:]}')
+            if pr.returncode < 0:
+                run.violation({'kind': 'crash', 'where': f'loading process {w}', 'rc': pr.returncode, 'stderr': err[-600:]},
+                              f'the loading process {w} crashed (rc={pr.returncode})')
+            else:
+                run.machinery(f'loading process {w} failed: {err[-1500:]}')
             continue
-        cases += [json.loads(l) for l in open(out)]
+        batches.append((w, out))
     run.extra['loading_worlds'] = worlds
-    fails = run.judge(cases, 'pk')
-    for idx, clauses in fails:
-        run.violation({'kind': 'judge', 'op': 'pickle', 'clauses': clauses, 'case': cases[idx]},
-                      f'pickle: real optree disagrees with the specification on {clauses}')
-    run.evaluations += len(cases)
-    for c in cases[:2]:
-        run.sample({'op': 'pickle', 't': c['t'], 'world': c['world'], 'routes': [l['via'] for l in c['loads']]})
+    first = True
+    for label, path in batches:              # judged batch by batch: the cases are large
+        cases = [json.loads(l) for l in open(path)]
+        fails = run.judge(cases, 'pk-' + label)
+        for idx, clauses in fails:
+            run.violation({'kind': 'judge', 'op': cases[idx]['op'], 'clauses': clauses, 'case': cases[idx]},
+                          f'pickle[{label}]: real optree disagrees with the specification on {clauses}')
+        run.evaluations += len(cases)
+        if first:
+            for c in cases[:2]:
+                run.sample({'op': 'pickle', 't': c['t'], 'world': c['world'], 'routes': [l['via'] for l in c['loads']]})
+            first = False
+        del cases
     # malformed states (sampled): must raise or yield a self-consistent treespec, never crash
     mo = os.path.join(wd, 'malformed.json')
     pm = run.drive('harness.drivers.d_pickle', ['malformed', mo], check=False)
